@@ -11,7 +11,7 @@ from collections.abc import Mapping
 from .ExcludedGcode import EXCLUDE_EXCEPT_FIRST, EXCLUDE_EXCEPT_LAST, EXCLUDE_MERGE
 from .Position import Position
 from .RetractionState import RetractionState
-from .GcodeParser import GcodeParser
+from .GcodeParser import GcodeParser, formatNumber
 
 IGNORE_GCODE_CMD = (None,)
 
@@ -584,7 +584,7 @@ class ExcludeRegionState(object):  # pylint: disable=too-many-instance-attribute
                 # recovery was excluded).  The printer did not execute the command, so its extruder
                 # coordinate must be set to the value the file now assumes.
                 returnCommands = [
-                    "G92 E{e}".format(e=self.position.E_AXIS.nativeToLogical())
+                    "G92 E{e}".format(e=formatNumber(self.position.E_AXIS.nativeToLogical()))
                 ]
 
             return returnCommands
@@ -860,7 +860,7 @@ class ExcludeRegionState(object):  # pylint: disable=too-many-instance-attribute
 
         returnCommands.append(
             # Set logical extruder position
-            "G92 E{e}".format(e=self.position.E_AXIS.nativeToLogical())
+            "G92 E{e}".format(e=formatNumber(self.position.E_AXIS.nativeToLogical()))
         )
 
         # Compare the physical (native) Z positions, and generate coordinates that are valid for the
@@ -869,8 +869,8 @@ class ExcludeRegionState(object):  # pylint: disable=too-many-instance-attribute
         newZ = self.position.Z_AXIS.current
         oldZ = self.lastPosition.Z_AXIS.current
         moveZcmd = "G0 F{f} Z{z}".format(
-            f=self.feedRate / self.feedRateUnitMultiplier,
-            z=self._logicalMoveTo(self.position.Z_AXIS, self.lastPosition.Z_AXIS)
+            f=formatNumber(self.feedRate / self.feedRateUnitMultiplier),
+            z=formatNumber(self._logicalMoveTo(self.position.Z_AXIS, self.lastPosition.Z_AXIS))
         )
 
         if (newZ > oldZ):
@@ -882,9 +882,9 @@ class ExcludeRegionState(object):  # pylint: disable=too-many-instance-attribute
             # Move X/Y axes to new position
             # Use G0 ("fast" linear move) as this is a non-extruding move
             "G0 F{f} X{x} Y{y}".format(
-                f=self.feedRate / self.feedRateUnitMultiplier,
-                x=self._logicalMoveTo(self.position.X_AXIS, self.lastPosition.X_AXIS),
-                y=self._logicalMoveTo(self.position.Y_AXIS, self.lastPosition.Y_AXIS)
+                f=formatNumber(self.feedRate / self.feedRateUnitMultiplier),
+                x=formatNumber(self._logicalMoveTo(self.position.X_AXIS, self.lastPosition.X_AXIS)),
+                y=formatNumber(self._logicalMoveTo(self.position.Y_AXIS, self.lastPosition.Y_AXIS))
             )
         )
 
